@@ -6,7 +6,7 @@ CONSTANTS
   LineFormats = {1}
   ContFormats = {1}
   BadSel = 0
-  Acts = {}
+  Acts = {"add", "set", "del", "get", "getlist", "in", "iter", "items", "pop", "copy", "cadd", "cset", "cdel", "cget", "parseline", "roundtrip"}
   MaxVals = 99
   MaxCVals = 99
   MaxValLen = 99
